@@ -9,8 +9,8 @@ from math import ceil
 import numpy as np
 import z3
 
-from .. import sym
-from ..harness import mval, run_case
+from .. import sym, xshim
+from ..harness import mval, replay_pinned, run_case
 from ..runner import pmap
 from ..sym import SymInt, eng
 from . import sched_common as sc
@@ -175,6 +175,34 @@ def case_pred(case):
                     key=str(case), max_paths=6000)
 
 
+def case_pass_constraints(case):
+    """The dart-scheduler pass itself (where the constraints are requested): the schedule it emits for a 2-D
+    element-wise add on snax_alu satisfies the memory-granularity constraint for the operands' element size."""
+    from xdsl.parser import Parser
+
+    from snaxc.dialects import dart
+    from snaxc.ir.dart.affine_transform import AffineTransform
+    from snaxc.transforms.dart.dart_scheduler import DartSchedulerPass
+    from .c03 import dart_operation_src
+
+    (r, c), ety = case
+    src = dart_operation_src("alu2d", (r, c)).replace("i64", ety)
+
+    def fn():
+        ctx = xshim.make_ctx()
+        m = Parser(ctx, src).parse_module()
+        DartSchedulerPass().apply(ctx, m)
+        so = [o for o in m.walk() if isinstance(o, dart.ScheduleOp)][0]
+        As = [np.array(AffineTransform.from_affine_map(p.data).A, dtype=int).tolist() for p in so.patterns.data]
+        nd = len(so.bounds.data)
+        el = int(ety[1:]) // 8
+        td = 1  # snax_alu: one spatial dimension
+        eng().oblige("pass:emitted_schedule_is_memory_flexible", decl_memory_flexible(As, [el] * len(As), nd, td),
+                     dict(shape=(r, c), element=ety, bounds=[b.value.data for b in so.bounds.data], patterns=[str(p.data) for p in so.patterns.data]))
+
+    return run_case(fn, lambda f: replay_pinned(fn, f), signature=lambda f, v: f["name"], sample=dict(case=str(case)), key=str(case))
+
+
 # ------------------------------------------------------------------ (iii) TemplatePattern.matches vs exact oracle
 
 
@@ -252,6 +280,8 @@ def run(chk):
     cases.append(("mem", 2, 1, 0, 1, (1, 4)))
     if only in (None, "pred"):
         chk.add_results("predicates_vs_definition", pmap(case_pred, cases))
+    if only in (None, "pass"):
+        chk.add_results("pass_level_constraints", pmap(case_pass_constraints, [(shp, ety) for shp in ((8, 3), (16, 2), (8, 8), (4, 8), (3, 8), (16, 4)) for ety in ("i8", "i16", "i64")]))
     ent = (-1, 0, 1, 2)
     cases = []
     shapes = [((1, 2), (1, 2)), ((2, 2), (2, 2)), ((2, 2), (1, 2)), ((1, 2), (2, 2)), ((2, 2), (2, 3)), ((2, 2), (3, 2)), ((1, 1), (1, 1))]
